@@ -50,10 +50,17 @@ class Variant:
     twin: bool = False
     regex: bool = False
     note: str = ""
+    every: bool = False  # replace every occurrence (whole-word regex) instead of exactly one
 
     def apply(self, src: str) -> Optional[str]:
         out = src
         for old, new in self.edits:
+            if self.every:
+                pattern = r"\b" + re.escape(old) + r"\b"
+                if not re.search(pattern, out):
+                    return None
+                out = re.sub(pattern, lambda _m, new=new: new, out)
+                continue
             if self.regex:
                 if len(re.findall(old, out, flags=re.S)) != 1:
                     return None
@@ -329,6 +336,27 @@ VARIANTS: List[Variant] = [
       "                if params.orientation != Orientation.VERTICAL:\n                    next_pos_across -= size.h\n                    pos = Position(-size.w, next_pos_across)\n                else:\n                    next_pos_across -= size.w\n                    pos = Position(next_pos_across, -size.h)"),
     T("twin-trees-deepcopy", TREES, "root.add_child(left_tree.copy())", 'root.add_child(left_tree.copy("deepcopy"))'),
     T("twin-tikz-whitespace", TIKZ, "}}}] at ({loss_pos : {MAX_DIGITS}}) {{}};\"\"\"", "}}}]   at ({loss_pos : {MAX_DIGITS}}) {{}};\"\"\""),
+]
+
+VARIANTS += [
+    T("twin-spfs-candidate-var", SPFS,
+      "                    subprobs[child_index].separate.update(\n                        Candidate(\n                            value=sub_cost + segment_dist,\n                            info=assignment,\n                        )\n                    )",
+      "                    separate_candidate = Candidate(value=sub_cost + segment_dist, info=assignment)\n                    subprobs[child_index].separate.update(separate_candidate)"),
+    T("twin-thl-entry-alias", REC, "    for info in table[root_object][root_species].infos():",
+      "    entry = table[root_object][root_species]\n    for info in entry.infos():"),
+    T("twin-thl-listcomp", REC,
+      "        results.update(\n            *map(\n                lambda output: Candidate(output.cost(), output),\n                _decode_thl_table(root_object, root_species, rec_input, table),\n            )\n        )",
+      "        results.update(\n            *[\n                Candidate(output.cost(), output)\n                for output in _decode_thl_table(root_object, root_species, rec_input, table)\n            ]\n        )"),
+    Variant("twin-cli-rename-results", CLI, [("results", "outputs")], (), twin=True, every=True),
+    Variant("twin-thl-rename-loss", REC, [("conserv_loss", "closs")], (), twin=True, every=True),
+    Variant("twin-spfs-rename-assignment", SPFS, [("assignment", "placement")], (), twin=True, every=True),
+    Variant("twin-layout-rename-size", LAYOUT, [("size", "extent")], (), twin=True, every=True),
+    Variant("twin-dp-rename-info", DP, [("candidate", "cand")], (), twin=True, every=True),
+    T("twin-uspfs-inline-tuple", USPFS,
+      "                        subprobs[child_index][inh].left.update(*inh_candidates)",
+      "                        subprobs[child_index][inh].left.update(inh_candidates[0], inh_candidates[1])"),
+    T("twin-model-docstring", MODEL, '        """Compute the total cost of this reconciliation."""', '        """Compute the total cost (events plus full losses) of this reconciliation."""'),
+    T("twin-tikz-comment", TIKZ, "    # Append layers in order\n", "    # Emit the layers, background first\n"),
 ]
 
 # the CLI twin needs a second edit (label in reconcile)
